@@ -216,7 +216,7 @@ func TestCheck(t *testing.T) {
 		t0 := time.Now()
 		var res *prodwl.Result
 		fail := e2e.Bubble(t, func() {
-			res = prodwl.Run(plan, 30*time.Minute) // virtual
+			res = prodwl.Run(plan, 5*time.Minute) // virtual; every configured timeout is seconds, a client stuck in a retry loop costs real time per virtual second
 		})
 		if res == nil {
 			r.Inconclusive("vt scenario produced no result: " + fail)
@@ -247,6 +247,6 @@ func TestCheck(t *testing.T) {
 	r.Finish("exploration",
 		"one evaluation = one seeded producer scenario (client options x API mix x cancellation x Flush/Abort/Purge/Close x broker fault plan) run against kfake behind faultnet, RT (loopback TCP) or VT (synctest bubble, virtual time); non-trivial = at least one injected fault fired, at least one promise succeeded and one failed, and an abort/purge/close/cancel overlapped in-flight records; distinct by (mode, fault kinds fired, promise error classes, ops)",
 		"kfake is the broker (checked separately by C29/C32)",
-		"RT: a promise still missing when the wall-clock watchdog fires is reported inconclusive, never a violation; VT: missing after 30 virtual minutes (far beyond every configured timeout) is a violation",
+		"RT: a promise still missing when the wall-clock watchdog fires is reported inconclusive, never a violation; VT: missing after 5 virtual minutes (every configured timeout and retry budget is seconds) is a violation",
 	)
 }
